@@ -125,6 +125,24 @@ def w_build(dest: str, ti: int, full_lengths: bool) -> Part:
             part.outcomes["refused-hop"] += 1
             continue
         part.viol("hop-count-out-of-range-accepted", f"hop_count={hop} serialised for {dest}/{tp!r}", {"dest": dest, "ti": ti, "hop": hop})
+    # ... also when the hop count is assigned to the flags of an existing frame (how routers decrement it) and the frame is serialised again
+    for hop in (-1, 8, 9, 15, 16, 64):
+        part.evaluations += 1
+        try:
+            frame = CEMIFrame(code=CEMIMessageCode.L_DATA_IND, data=CEMILData(flags=CEMIFlags(hop_count=6), src_addr=IndividualAddress(SRC), dst_addr=DESTS[dest][0], tpci=tp,
+                                                                               payload=None if tp.control else make_payload(dest, 3)))
+            good = frame.to_knx()
+            back = CEMIFrame.from_knx(good)
+            back.data.flags.hop_count = hop  # type: ignore[union-attr]
+        except Exception as exc:  # noqa: BLE001
+            part.viol(exc_sig("harness:hop-assignment", exc), repr(exc), {"dest": dest, "ti": ti, "hop": hop, "assigned": True})
+            continue
+        try:
+            raw = back.to_knx()
+        except Exception:  # noqa: BLE001
+            part.outcomes["refused-hop"] += 1
+            continue
+        part.viol("assigned-hop-count-out-of-range-accepted", f"hop_count={hop} assigned to a parsed frame for {dest}/{tp!r} serialises to {raw.hex()} (original {good.hex()})", {"dest": dest, "ti": ti, "hop": hop, "assigned": True})
     part.sample({"dest": dest, "tpci": repr(tp), "apdu_lengths": "1..256" if not tp.control else "control"})
     return part
 
@@ -186,7 +204,7 @@ def run(ctx: Ctx) -> None:
     ctx.rule = (
         "(a) frames built from telegrams: destination {group, broadcast, individual} x every admissible TPCI kind x APDU = GroupValueWrite/MemoryWrite of EVERY length 1..256 x "
         "control combinations (all 4x2x2x2x2 x hop 0..7 x {L_Data.req, L_Data.ind} at lengths {1,2,3,15,16,17,254}, 4 combinations elsewhere): bytes equal the independent encoder "
-        "vf/ref/cemi.py, FT = standard <=> NPDU <= 15, AT matches, parse back equal, >254 and hop -1/8/15 refused; (b) every frame of the C12 space that parses re-serialises "
+        "vf/ref/cemi.py, FT = standard <=> NPDU <= 15, AT matches, parse back equal, >254 and hop -1/8/15 refused (also when assigned to a parsed frame); (b) every frame of the C12 space that parses re-serialises "
         "equal outside {FT bit, reserved Ctrl1 bit} and the C05 reserved-bit masks. non-trivial = frames serialised / re-serialised"
     )
     ctx.assumptions = ["the reserved bit r of Ctrl1 (bit 6) is treated like the other reserved bits when a received frame is re-serialised"]
